@@ -66,7 +66,7 @@ Deliver, for change k in {{a, b}}, in {out}{{k}}/ (create the directories {out}a
 * notes.md    - 5-15 lines: what the change is (title on the first line), why it breaks the property, exactly what
   is needed for it to manifest, and why the existing tests do not see it.
 Before you finish, for each change verify yourself: clean tree -> demo exits 0; apply patch -> existing tests pass
-(same count) and demo exits non-zero; then `git checkout -- . && git clean -fdq` so the worktree is clean again
+(same count) and demo exits non-zero; then `git checkout -- . && git clean -fdq` (never `git stash`: the stash is shared with other worktrees) so the worktree is clean again
 between the two changes and at the end.  Report back in a few lines: the two titles, what each needs to
 manifest, and the test/demonstration results you observed.
 """
